@@ -121,6 +121,168 @@ def fold_case(args):
     return res
 
 
+# ----------------------------------------------------------------------------------------------
+# predicate leg: a boolean expression in projection position, in WHERE position and negated must
+# agree with an independent scalar 3VL evaluation of every row (the consumers of a boolean array -
+# filter, join - read it differently from a projection: raw slots under NULL must not leak)
+
+import fnmatch
+import re as _re
+
+
+def _like(s, pat):
+    if s is None:
+        return None
+    rx = "".join(".*" if ch == "%" else "." if ch == "_" else _re.escape(ch) for ch in pat)
+    return _re.fullmatch(rx, s, _re.S) is not None
+
+
+def _and(x, y):
+    if x is False or y is False:
+        return False
+    if x is None or y is None:
+        return None
+    return True
+
+
+def _or(x, y):
+    if x is True or y is True:
+        return True
+    if x is None or y is None:
+        return None
+    return False
+
+
+def _not(x):
+    return None if x is None else (not x)
+
+
+PCOLS = [("a", "INT"), ("b", "INT"), ("s", "VARCHAR"), ("t", "VARCHAR"), ("c", "BOOLEAN")]
+PATTERNS = ["%", "%%", "", "a%", "%a", "_", "a_", "%b%", "ab", "_%"]
+
+
+def gen_bexpr(rng, d=0):
+    """-> (sql, fn(row dict) -> True/False/None)"""
+    kinds = ["cmp_cc", "cmp_ck", "like", "like", "isnull", "boolcol", "between", "inlist"]
+    if d < 2:
+        kinds += ["and", "or", "not", "and", "or"]
+    k = rng.choice(kinds)
+    ints, strs = ["a", "b"], ["s", "t"]
+    if k == "cmp_cc":
+        x, y = (rng.choice(ints), rng.choice(ints)) if rng.random() < 0.5 else (rng.choice(strs), rng.choice(strs))
+        op = rng.choice(["=", "<>", "<", "<=", ">", ">="])
+        return f"({x} {op} {y})", lambda r, x=x, y=y, op=op: _mcmp(op, r[x], r[y])
+    if k == "cmp_ck":
+        if rng.random() < 0.5:
+            x, v = rng.choice(ints), rng.randint(-1, 4)
+            op = rng.choice(["=", "<>", "<", "<=", ">", ">="])
+            return f"({x} {op} {v})", lambda r, x=x, v=v, op=op: _mcmp(op, r[x], v)
+        x, v = rng.choice(strs), rng.choice(["a", "ab", "", "b"])
+        op = rng.choice(["=", "<>", "<", ">="])
+        return f"({x} {op} '{v}')", lambda r, x=x, v=v, op=op: _mcmp(op, r[x], v)
+    if k == "like":
+        x, pat = rng.choice(strs), rng.choice(PATTERNS)
+        neg = rng.random() < 0.25
+        return (f"({x} {'NOT ' if neg else ''}LIKE '{pat}')",
+                lambda r, x=x, pat=pat, neg=neg: (_not(_like(r[x], pat)) if neg else _like(r[x], pat)))
+    if k == "isnull":
+        x = rng.choice(ints + strs + ["c"])
+        neg = rng.random() < 0.5
+        return f"({x} IS {'NOT ' if neg else ''}NULL)", lambda r, x=x, neg=neg: (r[x] is not None) if neg else (r[x] is None)
+    if k == "boolcol":
+        return "c", lambda r: r["c"]
+    if k == "between":
+        x, lo, hi = rng.choice(ints), rng.randint(-1, 2), rng.randint(1, 4)
+        return f"({x} BETWEEN {lo} AND {hi})", lambda r, x=x, lo=lo, hi=hi: _and(_mcmp(">=", r[x], lo), _mcmp("<=", r[x], hi))
+    if k == "inlist":
+        x, vs = rng.choice(ints), [rng.randint(-1, 4) for _ in range(rng.randint(1, 3))]
+
+        def f(r, x=x, vs=vs):
+            out = False
+            for v in vs:
+                out = _or(out, _mcmp("=", r[x], v))
+            return out
+        return f"({x} IN ({', '.join(map(str, vs))}))", f
+    if k == "not":
+        e, f = gen_bexpr(rng, d + 1)
+        return f"(NOT {e})", lambda r, f=f: _not(f(r))
+    e1, f1 = gen_bexpr(rng, d + 1)
+    e2, f2 = gen_bexpr(rng, d + 1)
+    if k == "and":
+        return f"({e1} AND {e2})", lambda r, f1=f1, f2=f2: _and(f1(r), f2(r))
+    return f"({e1} OR {e2})", lambda r, f1=f1, f2=f2: _or(f1(r), f2(r))
+
+
+def _mcmp(op, a, b):
+    if a is None or b is None:
+        return None
+    return {"=": a == b, "<>": a != b, "<": a < b, "<=": a <= b, ">": a > b, ">=": a >= b}[op]
+
+
+def pred_case(args):
+    seed, idx, n = args
+    rng = random.Random(f"c14-pred-{seed}-{idx}")
+    res = dict(violations=[], evals=0, judged=0, distinct=[], inconclusive=None, samples=[], kinds={})
+    engine = "mem" if idx % 2 == 0 else "disk"
+    rl = RL(engine, dict(block=64, rowset=400, crc=True, first_key=True))
+    try:
+        rl.sql("CREATE TABLE p(id INT NOT NULL, a INT, b INT, s VARCHAR, t VARCHAR, c BOOLEAN)")
+        rows = []
+        nrows = rng.choice([5, 40, 70, 130])
+        for i in range(nrows):
+            rows.append(dict(id=i, a=rng.choice([None, 0, 1, 2, 3]), b=rng.choice([None, 0, 1, 2]),
+                             s=rng.choice([None, None, "", "a", "ab", "b", "ba"]), t=rng.choice([None, "", "a", "ab"]),
+                             c=rng.choice([None, True, False])))
+        for i in range(0, nrows, 50):
+            vals = ", ".join("(" + ", ".join("NULL" if r[k] is None else (f"'{r[k]}'" if isinstance(r[k], str) else str(r[k]).lower())
+                                             for k in ["id", "a", "b", "s", "t", "c"]) + ")" for r in rows[i:i + 50])
+            r = rl.sql(f"INSERT INTO p VALUES {vals}")
+            if not r["ok"]:
+                res["inconclusive"] = "insert failed: " + r.get("err", "")[:60]
+                return res
+        for _ in range(n):
+            e, f = gen_bexpr(rng)
+            want = {r["id"]: f(r) for r in rows}
+            q1 = f"SELECT id, {e} AS v FROM p"
+            q2 = f"SELECT id FROM p WHERE {e}"
+            q3 = f"SELECT id FROM p WHERE NOT {e}"
+            r1, r2, r3 = rl.sql(q1), rl.sql(q2), rl.sql(q3)
+            res["evals"] += 3
+            if any(x.get("dead") for x in (r1, r2, r3)):
+                res["inconclusive"] = "runner died"
+                break
+            if not (r1["ok"] and r2["ok"] and r3["ok"]):
+                bad = [(q, x) for q, x in ((q1, r1), (q2, r2), (q3, r3)) if not x["ok"]]
+                if len(bad) < 3:
+                    q, x = bad[0]
+                    res["violations"].append(dict(signature="predicate:fails-in-one-position", what=f"{q}: {x.get('err', '')[:100]} {x.get('panics')} (the other positions evaluate)", sql=q))
+                continue
+            res["judged"] += 1
+            res["distinct"].append(h(e))
+            if len(res["samples"]) < 2:
+                res["samples"].append(q2)
+            got1 = {row[0]: (None if row[1] is None else bool(row[1])) for row in r1["rows"]}
+            if got1 != want:
+                d = [(i, got1.get(i), want[i]) for i in want if got1.get(i) != want[i]][:3]
+                res["violations"].append(dict(signature="predicate:projected-value-differs-from-scalar", what=f"{q1}: (id, got, scalar) {d}; rows {[rows[i] for i, _, _ in d]}", sql=q1))
+                continue
+            for q, r, truth in ((q2, r2, True), (q3, r3, False)):
+                ids = sorted(row[0] for row in r["rows"])
+                exp = sorted(i for i, v in want.items() if v is truth)
+                if ids != exp:
+                    extra = [i for i in ids if i not in exp][:3]
+                    lost = [i for i in exp if i not in ids][:3]
+                    res["violations"].append(dict(signature="predicate:filter-differs-from-scalar",
+                                                  what=f"{q}: unexpected ids {extra} (scalar value {[want[i] for i in extra]}), missing ids {lost}; rows {[rows[i] for i in (extra + lost)[:3]]}", sql=q))
+                    break
+    except Exception as ex:
+        res["inconclusive"] = f"harness: {type(ex).__name__}: {ex}"
+    finally:
+        rl.close()
+    return res
+
+
+
 def sentinel(w):
     rl = RL("mem")
     try:
@@ -144,7 +306,7 @@ def run(tier, seed):
     per, shards, nfold = (6000, 16, 40) if tier == "quick" else (400000, 16, 600)
     rep.rule = ("kernel leg: random (operator, operand types, batch length in {0,1,2,17,63,64,65,130,200}, NULL density, boundary "
                 "pools, arbitrary raw bits under NULL) cases judged row by row against a scalar interpreter; SQL leg: random "
-                "constant expressions with the optimizer on vs off; distinct non-trivial = distinct (operator, operand types) "
+                "constant expressions with the optimizer on vs off; predicate leg: random boolean expressions (comparisons, LIKE, IS NULL, BETWEEN, IN, AND/OR/NOT) over a table with NULLs evaluated by a Python 3VL evaluator and by the engine in projection, WHERE and NOT-WHERE position; distinct non-trivial = distinct (operator, operand types) "
                 "combinations judged plus distinct constant expressions that evaluated on both sides")
     combos, rows, cases = {}, 0, 0
     with ThreadPoolExecutor(max_workers=NCPU) as ex:
@@ -173,14 +335,29 @@ def run(tier, seed):
             rep.sample(s, limit=5)
         for v in res["violations"]:
             rep.add_violation(Violation(v["signature"], v["what"], dict(sql=v["sql"], signature=v["signature"])))
+    npred = 25 if tier == "quick" else 400
+    pj = 0
+    preds = set()
+    for res in parallel_map(pred_case, [(seed, i, npred) for i in range(16)]):
+        rep.evaluations += res["evals"]
+        pj += res["judged"]
+        preds.update(res["distinct"])
+        if res["inconclusive"]:
+            rep.inc("predicate leg: " + res["inconclusive"][:50])
+        for s_ in res["samples"]:
+            rep.sample(s_, limit=7)
+        for v in res["violations"]:
+            rep.add_violation(Violation(v["signature"], v["what"], dict(sql=v["sql"], signature=v["signature"], predicate=True)))
     run_sentinels(rep, sentinel)
     rep.evaluations += rows
-    rep.distinct = len(combos) + len(folds)
+    rep.distinct = len(combos) + len(folds) + len(preds)
     rep.coverage.update(kernel_cases=cases, kernel_row_evaluations=rows, operator_type_combinations=len(combos),
                         constant_expressions_equal_on_both_sides=tot["ok"], constant_expressions_failing_on_both_sides=tot["fail"])
     rep.floor("operator/type combinations judged", len(combos), 150)
     rep.floor("row evaluations", rows, per * shards * 10)
     rep.floor("constant expressions compared", tot["ok"], nfold * 4)
+    rep.floor("boolean expressions judged in projection, WHERE and NOT position", pj, npred * 8)
+    rep.coverage["predicate_expressions_judged"] = pj
     rep.assumptions = ["NaN and infinities are not used as operands of comparisons (SQL leaves them implementation-defined)",
                        "float results are compared by bits except for the sign of zero"]
     if tier == "thorough" and not os.environ.get("VERIF_OVERLAY"):
